@@ -1,7 +1,7 @@
 """Spec functions for C18 (fragment splitting).  Pure Python: translated to SMT by pyvc and executed natively on replay."""
-from pyvc.api import spec, init, last
+from pyvc.api import spec, init, last, const
 
-ALL_PAIRS = '[](){}<>""\'\''
+ALL_PAIRS = const('ALL_PAIRS', '[](){}<>""\'\'')
 
 
 @spec(opaque=True)
@@ -101,3 +101,94 @@ def raw_concat(text: str, d: str, toks: str, n: int) -> str:
 	if is_cut(text, d, toks, n - 1):
 		return raw_concat(text, d, toks, n - 1) + text[seg_begin(text, d, toks, n - 1):n - 1] + d
 	return raw_concat(text, d, toks, n - 1)
+
+
+@spec
+def bs_spec(text: str, d: str) -> list[str]:
+	"""What break_separator must return: the segments between the cuts, stripped of blanks; an empty last segment is omitted."""
+	if seg_begin(text, d, ALL_PAIRS, len(text)) < len(text):
+		return blocks_upto(text, d, ALL_PAIRS, len(text)) + [text[seg_begin(text, d, ALL_PAIRS, len(text)):].strip(' ')]
+	return blocks_upto(text, d, ALL_PAIRS, len(text))
+
+
+@spec(opaque=True)
+def key_of(piece: str, i: int) -> str:
+	"""Decorator argument key: the label before the first '=' or, without one, the position."""
+	if '=' in piece:
+		return piece[:piece.find('=')]
+	return str(i)
+
+
+@spec(opaque=True)
+def val_of(piece: str) -> str:
+	if '=' in piece:
+		return piece[piece.find('=') + 1:]
+	return piece
+
+
+# ---- natively evaluated helpers (bounded twin only) -----------------------------------------------------
+from pyvc.api import native  # noqa: E402
+
+_PAIR = {'(': ')', '[': ']', '{': '}', '<': '>'}
+
+
+@native
+def closer_stack(text: str, lo: int, hi: int):
+	"""The stack machine *as the property means it*: inside a quote nothing counts until the same quote.
+	Returns the list of expected closers, or None if a closer does not match."""
+	st: list[str] = []
+	for ch in text[lo:hi]:
+		if st and st[-1] in '"\'':
+			if ch == st[-1]:
+				st.pop()
+			continue
+		if ch in '"\'':
+			st.append(ch)
+		elif ch in _PAIR:
+			st.append(_PAIR[ch])
+		elif ch in _PAIR.values():
+			if not st or st[-1] != ch:
+				return None
+			st.pop()
+	return st
+
+
+@native
+def balanced(text: str) -> bool:
+	return closer_stack(text, 0, len(text)) == []
+
+
+@native
+def top_level(text: str, i: int) -> bool:
+	return closer_stack(text, 0, i) == []
+
+
+@native
+def cuts_ok(text: str, d: str, pieces: list) -> bool:
+	"""T2 for a balanced text: the pieces are exactly the stripped segments between the top-level delimiters
+	(property-level notion of top level: outside all brackets and quotes), and every piece is balanced."""
+	if not balanced(text):
+		return True
+	cuts = [i for i in range(len(text)) if text[i:i + len(d)] == d and top_level(text, i) and i + len(d) < len(text)]
+	segs, b = [], 0
+	for c in cuts:
+		segs.append(text[b:c].strip(' '))
+		b = c + len(d)
+	if b < len(text):
+		segs.append(text[b:].strip(' '))
+	return pieces == segs and all(balanced(p) for p in pieces)
+
+
+@native
+def param_wf(ty: str, name: str, default: str) -> bool:
+	"""Domain of the Param.parse law: identifier name; type/default balanced, blank-trimmed, type without top-level '=' or double blanks,
+	default without top-level '='."""
+	import re
+	if not re.fullmatch(r'[A-Za-z_]\w*', name) or not ty or ty != ty.strip(' ') or default != default.strip(' '):
+		return False
+	if not balanced(ty) or not balanced(default):
+		return False
+	for i, ch in enumerate(ty):
+		if top_level(ty, i) and (ch == '=' or ty[i:i + 2] == '  '):
+			return False
+	return not any(default[i] == '=' and top_level(default, i) for i in range(len(default)))
